@@ -55,7 +55,7 @@ def compare(lib, items, stats=None, shards=12):
     same = skipped = 0
     for ci, cm in pairs:
         a, b = im.get(ci.id), mo.get(cm.id)
-        if not b or b[0] in ('SKIP', 'OUTOFFUEL') or (b[0] == 'ERR' and b[1] == 'OtherError') or (a and a[0] == 'TIMEOUT'):
+        if not b or b[0] in ('SKIP', 'OUTOFFUEL', 'TIMEOUT', 'STACKOVERFLOW') or (b[0] == 'ERR' and b[1] == 'OtherError') or (a and a[0] == 'TIMEOUT'):
             skipped += 1       # construct outside the composed model (bearing path, <config>, <defaults>) or its fuel
             continue
         if a and a[0] == b[0] and (a[1] == b[1] if a[0] == 'OK' else (b[1] == 'MultiError' or a[1] == b[1])):
